@@ -18,7 +18,15 @@ use std::fmt::Write as _;
 use tz::datetime::FoundDateTimeKind;
 use tz::{TimeZone, TimeZoneSettings};
 
-const HARD_CASES: [&str; 14] = [
+const HARD_CASES: [&str; 20] = [
+    // the only footer with a minutes field; suffix-shared designations; fixed footers after a fall-back / a no-op
+    // last transition; a right/ file with a footer-governed future
+    "Pacific/Chatham",
+    "America/Adak",
+    "Europe/Moscow",
+    "Asia/Singapore",
+    "Asia/Shanghai",
+    "right/America/New_York",
     "Europe/Dublin",
     "Australia/Lord_Howe",
     "Africa/Casablanca",
